@@ -117,5 +117,34 @@ __CPROVER_requires(SL_PRE(SectionHDF5) && gh_sl_empty_id == 0)
 SL_POST(gh_sl_found)
 NIX_CANARY(SectionHDF5_link_set) __CPROVER_assigns(SL_ASSIGNS)
 ;
+
+/* ---- BlockHDF5::createMultiTag(name, type, positions): "nothing is created" when the positions array is not in this block ("half-built multi-tag") ----
+   the constructor of the new multi-tag links the positions and raises when the array is not in the block - AFTER the group exists; so the create function
+   must refuse before it creates the group.  Ghosts: is the array in the block; groups created; multi-tag objects constructed (the constructor raises for a
+   foreign array, as the real one does). */
+typedef struct { int _b; } BlockHDF5;
+typedef struct { int has; H5Group val; } opt_H5Group;
+typedef struct { int null; } MultiTagP;
+typedef struct { nstring id_; } DataArray;
+extern int gh_cm_in_block, gh_cm_groups_created, gh_cm_objects, gh_cm_asked_id, gh_cm_created_name;
+static inline nstring DataArray_id(const DataArray *a)
+{ return a->id_; }
+static inline bool BlockHDF5_hasEntity_DataArray(const BlockHDF5 *self, nstring id)
+{ gh_cm_asked_id = id.id; return gh_cm_in_block != 0; }
+static inline nstring createId(void)
+{ nstring s; s.id = 4242; return s; }
+static inline opt_H5Group BlockHDF5_multi_tag_group(const BlockHDF5 *self, bool create)
+{ opt_H5Group g; g.has = 1; g.val.grp = OWN_GRP; return g; }
+static inline H5Group H5Group_openGroup_create(H5Group *g, const nstring *name)
+{ __CPROVER_assert(g->grp == OWN_GRP, "the block's multi-tag group"); gh_cm_groups_created++; gh_cm_created_name = name->id; H5Group r; r.grp = 50; return r; }
+NIX_THROWS static inline MultiTagP mk_MultiTagP(H5Group group, const DataArray *positions)
+{ MultiTagP p; p.null = 1; if (!gh_cm_in_block) { nix_exc = EXC_runtime_error; return p; } gh_cm_objects++; p.null = 0; return p; }
+NIX_THROWS MultiTagP BlockHDF5_createMultiTag(BlockHDF5 *self, const nstring *name, const nstring *type, const DataArray *positions)
+__CPROVER_requires(__CPROVER_is_fresh(self, sizeof(BlockHDF5)) && __CPROVER_is_fresh(name, sizeof(nstring)) && __CPROVER_is_fresh(type, sizeof(nstring)) && __CPROVER_is_fresh(positions, sizeof(DataArray)) &&
+                   (gh_cm_in_block == 0 || gh_cm_in_block == 1) && gh_cm_groups_created == 0 && gh_cm_objects == 0 && nix_exc == EXC_NONE)
+__CPROVER_ensures(/*positions-of-another-block-are-refused-and-nothing-is-created*/ !gh_cm_in_block <==> (nix_exc == EXC_runtime_error && gh_cm_groups_created == 0 && gh_cm_objects == 0))
+__CPROVER_ensures(/*otherwise-exactly-one-group-of-that-name-and-one-multi-tag*/ gh_cm_in_block ==> (nix_exc == EXC_NONE && gh_cm_groups_created == 1 && gh_cm_created_name == name->id && gh_cm_objects == 1 && !RV.null))
+NIX_CANARY(BlockHDF5_createMultiTag) __CPROVER_assigns(nix_exc, gh_cm_groups_created, gh_cm_created_name, gh_cm_objects, gh_cm_asked_id)
+;
 #undef RV
 #endif
